@@ -11,6 +11,7 @@ import PyTRS.Model.Objects
 import PyTRS.Model.Containers
 import PyTRS.Model.Export
 import PyTRS.Model.World
+import PyTRS.Model.WorldHeap
 open PyTRS
 namespace Driver
 
@@ -408,13 +409,69 @@ def handle (fs : List String) : String :=
     | none => "!ValueError"
   | _ => "?badop"
 
-/-- stateful entry point: `w.*` requests thread a World, everything else is stateless -/
-def handleW (w : World.World) (fs : List String) : World.World × String :=
+/-! ### heap-level histories (`h.*`): the refinement `Model/WorldHeap` in which dict OBJECTS have identity -/
+
+open WorldHeap in
+/-- dicts handed to the caller are named by the order in which he received them (0, 1, …), on both sides of the wire -/
+def handedRef (w : WorldHeap.HWorld) (k : Nat) : WorldHeap.Ref :=
+  match w.handedOut.reverse[k]? with
+  | some r => r
+  | none => w.next          -- never handed out: the model answers `denied`
+
+open WorldHeap in
+def decHOp (w : WorldHeap.HWorld) (fs : List String) : Option WorldHeap.HOp :=
   match fs with
-  | ["w.reset"] => ({}, "ok")
+  | ["h.mc", ns, ew] => some (.setMC (decText ns) (decText ew))
+  | ["h.cache", "on"] => some (.cacheOn true)
+  | ["h.cache", "off"] => some (.cacheOn false)
+  | ["h.cache", "clear"] => some .cacheClear
+  | ["h.new", id, t] => some (.newTRS id.toNat! (decOpt t))
+  | ["h.set", id, t] => some (.setTrs id.toNat! (decOpt t))
+  | ["h.newfrom", id, src] => some (.newTRSFrom id.toNat! src.toNat!)
+  | ["h.from_twprgesec", id, a, b, c, ns, ew, ocr] =>
+    some (.fromTwprgesec id.toNat! (decArg a) (decArg b) (decArg c) (decOpt ns) (decOpt ew) (decBool ocr))
+  | ["h.set_twprgesec", id, a, b, c, ns, ew, ocr] =>
+    some (.setTwprgesec id.toNat! (decArg a) (decArg b) (decArg c) (decOpt ns) (decOpt ew) (decBool ocr))
+  | ["h.todict", t] => some (.toDict (decOpt t))
+  | ["h.todict_obj", id] => some (.toDictObj id.toNat!)
+  | ["h.read", id] => some (.read id.toNat!)
+  | ["h.same", a, b] => some (.sameDict a.toNat! b.toNat!)
+  -- the caller overwrites the k-th dict he was given with the contents of trs_to_dict(t), its 'trs' entry set to `mark`
+  | ["h.cwrite", k, t, mark] => some (.callerWrites (handedRef w k.toNat!) { TRS.trsToDict (decOpt t) with trs := decText mark })
+  | ["h.cread", k] => some (.callerReads (handedRef w k.toNat!))
+  | _ => Option.none
+
+open WorldHeap in
+def renderHOut (w' : WorldHeap.HWorld) : WorldHeap.HOut → String
+  | .none => "N"
+  | .denied => "denied"
+  | .err e => "!" ++ e.name
+  | .dict d => d.toPy.render
+  | .handed _ d => "H" ++ toString (w'.handedOut.length - 1) ++ " " ++ d.toPy.render
+  | .bool b => if b then "1" else "0"
+  | .str s => (PyVal.str s).render
+
+open WorldHeap in
+def renderShape (w : WorldHeap.HWorld) : String :=
+  (PyVal.tup [.list ((cacheShape w).map (fun e => .tup [(match e.1 with | some s => .str s | none => .none), .list (e.2.map (fun i => .int (Int.ofNat i)))])),
+              .int (Int.ofNat (distinctDicts w))]).render
+
+structure DState where
+  w : World.World := {}
+  h : WorldHeap.HWorld := {}
+
+/-- stateful entry point: `w.*` requests thread a World, `h.*` requests a heap-level world, everything else is stateless -/
+def handleW (st : DState) (fs : List String) : DState × String :=
+  match fs with
+  | ["w.reset"] => ({ st with w := {} }, "ok")
+  | ["h.reset"] => ({ st with h := {} }, "ok")
+  | ["h.shape"] => (st, renderShape st.h)
   | _ =>
     match decOp fs with
-    | some op => let (w', o) := World.step w op; (w', renderOut o)
-    | none => (w, handle fs)
+    | some op => let (w', o) := World.step st.w op; ({ st with w := w' }, renderOut o)
+    | none =>
+      match decHOp st.h fs with
+      | some op => let (h', o) := WorldHeap.step st.h op; ({ st with h := h' }, renderHOut h' o)
+      | none => (st, handle fs)
 
 end Driver
